@@ -287,12 +287,20 @@ def run_real(cfg, hist, dec=None):
 
 
 def snapshot_reasm(dec):
+    """the reassembly records as the model names them; internals that are not shaped as in the pinned tree (another key
+    type, renamed attributes) give a snapshot that simply disagrees with the model's (never an exception)"""
     r = []
-    for k in sorted(dec.data):
-        p, s, d = (int(x) for x in k.split("_"))
-        v = dec.data[k]
-        frames = [(fc, bytes(v.frames[fc][::-1])) for fc in sorted(v.frames)]
-        r.append(((p, s, d), (frames, v.payload_length, v.bytes_stored, v.sequence_counter)))
+    try:
+        for k in sorted(dec.data, key=repr):
+            try:
+                p, s, d = (int(x) for x in k.split("_"))
+            except Exception:  # noqa: BLE001
+                p, s, d = -1, -1, -1
+            v = dec.data[k]
+            frames = [(fc, bytes(v.frames[fc][::-1])) for fc in sorted(v.frames)]
+            r.append(((p, s, d), (frames, v.payload_length, v.bytes_stored, v.sequence_counter)))
+    except Exception:  # noqa: BLE001
+        return [((-1, -1, -1), ([], -1, -1, -1))]
     return r
 
 
